@@ -107,7 +107,13 @@ def run(ctx):
         cs = f.conds(bi)
         if any(c['kind'] == 'variant' and c['variants'] == ['Occupied'] and 'chance_infosets' in facts.show(c['a']) for c in cs):
             found = True
-            ne = [c for c in cs if c['kind'] in ('Ne', 'Eq') and 'probs' in facts.show(c['a']) + facts.show(c['b'])]
+            def mentions_weights(c):
+                return weight_vec is not None and any(norm(x) == weight_vec for side in (c['a'], c['b']) for x in facts.walk(side))
+            ne = [c for c in cs if c['kind'] in ('Ne', 'Eq') and c.get('b') is not None and ('probs' in facts.show(c['a']) + facts.show(c['b']) or mentions_weights(c))]
+            if not ne:
+                # no comparison that involves the weight vector is visible on this path (e.g. behind a helper of a reshaped type)
+                ctx.anchor_lost(rule, 'init_recurse: comparison of stored and new chance weights on the occupied path')
+                continue
             good = bool(ne) and whole_value_cmp(ne[-1]) and ((ne[-1]['kind'] == 'Ne' and ne[-1]['truth'] is False) or (ne[-1]['kind'] == 'Eq' and ne[-1]['truth'] is True))
             other = weight_vec is not None and ne and (weight_vec in [norm(x) for x in facts.walk(ne[-1]['a'])] + [norm(x) for x in facts.walk(ne[-1]['b'])] or
                                                         any(norm(x) == weight_vec for side in (ne[-1]['a'], ne[-1]['b']) for x in facts.walk(side)))
